@@ -284,7 +284,7 @@ void body(vf::Ctx & c)
     if (st.pre != 0) {st.nNext = static_cast<int>(c.s.i("n_next", 1, 6));}
     if (st.pre >= 2) {preEnd[k] = genPoint<S, D>(c, ax, res);}
     if (st.pre == 3) {preOrigin[k] = genPoint<S, D>(c, ax, res); curOrigin = preOrigin[k]; haveOrigin = true;}
-    st.form = static_cast<int>(c.s.pick("form", {2, 2, 2}));
+    st.form = static_cast<int>(c.s.pick("form", {2, 2, 2, 1}));   // 3: setOriginPoint(o); setEndPoint(e); cast()
     if (st.form == 2 && !haveOrigin) {st.form = 1;}
     // history couplings: reuse the previous origin / previous end point
     const std::array<double, D> * fixed = nullptr;
@@ -306,6 +306,11 @@ void body(vf::Ctx & c)
   c.labelIf(anyAlias, "cast(own getEndPoint() reference, e)");
   const bool gridAssignedLater = c.s.flag("grid_configured_after_the_caster_was_bound", 1, 4);
   c.labelIf(gridAssignedLater, "grid-configured-after-binding");
+  // how the caster gets its grid: constructor / default constructed then setGridIndexMapping / a caster that worked on
+  // another grid first and is then re-bound (every cast below specifies its origin after the binding)
+  const size_t binding = c.s.pick("binding", {3, 1, 1});
+  c.labelIf(binding == 1, "default-constructed-then-bound");
+  c.labelIf(binding == 2, "re-bound-after-work-on-another-grid");
   c.label(ctor == 0 ? "ctor-maximal-range" : "ctor-interval");
   c.commit();
 
@@ -323,8 +328,29 @@ void body(vf::Ctx & c)
   std::unique_ptr<Map> bound;
   if (gridAssignedLater) {bound.reset(new Map(static_cast<S>(3), static_cast<S>(1)));} else {bound.reset(new Map(*mp));}
   Map & m = *bound;
-  std::unique_ptr<romea::core::RayCasting<S, D>> casterHolder(new romea::core::RayCasting<S, D>(&m));
+  std::unique_ptr<romea::core::RayCasting<S, D>> casterHolder;
+  Map otherGrid(static_cast<S>(7), static_cast<S>(0.5));
+  if (binding == 0) {
+    casterHolder.reset(new romea::core::RayCasting<S, D>(&m));
+  } else if (binding == 1) {
+    casterHolder.reset(new romea::core::RayCasting<S, D>());
+    casterHolder->setGridIndexMapping(&m);
+  } else {
+    casterHolder.reset(new romea::core::RayCasting<S, D>(&otherGrid));
+    Pt a, b;
+    for (size_t d = 0; d < D; ++d) {a[d] = static_cast<S>(-1.3 + 0.4 * d); b[d] = static_cast<S>(5.1 - 2.7 * d);}
+    Chain elsewhere = casterHolder->cast(a, b);
+    c.harnessCheck(elsewhere.size() >= 3, "the cast on the other grid is trivial");
+    casterHolder->setGridIndexMapping(&m);
+  }
   if (gridAssignedLater) {m = *mp;}
+  if (binding == 2) {
+    // a re-bound caster is given an origin of the new grid before anything else (its stored cell indexes belong to the
+    // other grid); everything else it remembers from the other grid must be without influence
+    Pt o0;
+    for (size_t d = 0; d < D; ++d) {o0[d] = static_cast<S>(ax[d].lo);}
+    casterHolder->setOriginPoint(o0);
+  }
   const Idx n = m.getNumberOfCellsAlongAxes();
   auto toPt = [](const std::array<double, D> & a) {
       Pt p;
@@ -475,6 +501,10 @@ void body(vf::Ctx & c)
     } else if (st.form == 1) {
       caster.setOriginPoint(toPt(r.o));
       got = caster.cast(toPt(r.e));
+    } else if (st.form == 3) {
+      caster.setOriginPoint(toPt(r.o));
+      caster.setEndPoint(toPt(r.e));
+      got = caster.cast();
     } else {
       got = caster.cast(toPt(r.e));
     }
@@ -492,6 +522,9 @@ void body(vf::Ctx & c)
         ptStr(r.o).c_str(), ptStr(r.e).c_str(), res));
     }
     c.check(caster.getOriginPointIndexes() == ref.front(), w + ": getOriginPointIndexes() differs from the first cell");
+    c.check(caster.getEndPointIndexes() == m.computeCellIndexes(toPt(r.e)), w + ": getEndPointIndexes() is not the end point's cell");
+    c.check(caster.getOriginPoint() == toPt(r.o) && caster.getEndPoint() == toPt(r.e), w + ": getOriginPoint() / getEndPoint() are not the points of the cast");
+    c.labelIf(st.form == 3, "setOriginPoint+setEndPoint+cast()");
     c.label("casts(total)");
     c.labelIf(st.pre != 0, "next()-steps-before-cast");
     c.labelIf(st.form == 2, "cast(e)-keeping-origin");
@@ -502,7 +535,8 @@ void body(vf::Ctx & c)
   "grid: resolution in [0.01,1] (decimals / powers of two / log-uniform), maximal-range or interval form, <= 12 / 150 / 2000 " \
   "cells per axis, bounds in [-1e3,1e3] generic / multiples / half-multiples / zero width, half of them around the origin; " \
   "history of 1..6 casts on one caster: optional leftovers (next() steps, setEndPoint+next(), setOriginPoint+setEndPoint+" \
-  "next()), then cast(o,e) | setOriginPoint(o)+cast(e) | cast(e) keeping the origin; origin/end per axis uniform / bound / " \
+  "next()), then cast(o,e) | setOriginPoint(o)+cast(e) | cast(e) keeping the origin | setOriginPoint(o)+setEndPoint(e)+cast(); caster bound " \
+  "by its constructor / default constructed then bound / re-bound after a cast on another grid; origin/end per axis uniform / bound / " \
   "cell border or centre +-0..2 ulp / next to a bound, all-lattice points (cell corners, centres), extent corners; ray kinds " \
   "generic, axis-aligned (1..D-1 zero components), exact diagonal k*res*(+-1..), coincident, near-axis-aligned (component of " \
   "0..4 ulp across a border), short (<= 3 cells); origin / end point reused from the previous cast. Every cast is checked on a " \
